@@ -22,7 +22,7 @@ DEV = "D_stream_response_timeout_ignored"
 META = {
     "category": "model_checking",
     "text": "TLC explores the stream transport (one action per select! arm of Transport::run, the slot table with ID = slot index, timers, an adversarial peer that may send any message of an alphabet at any time, end the stream or stop reading) and the datagram transport (attempts, random IDs, receive loop, retries) and checks OwnAnswer, AtMostOnce, NoCross, SlotTableSound, NothingLost, the timer/retry budget and completion (liveness under fairness of the task and the clock). Every transition of the explored macro-step state graphs is replayed into the real stream::Connection/Transport and dgram::Connection over in-memory sockets on a paused clock, comparing requests written and the outcome of every get_response() after every step; recorded runs with 50 concurrent requests against a seeded hostile peer are validated by TLC against the specification with the invariants evaluated at every step.",
-    "note": "Trusted: TLC, the transcription in ClientStream.tla/ClientDgram.tla, the harness (in-memory sockets, interposed CLOCK_MONOTONIC so that std::time::Instant follows the paused tokio clock). Errors are compared as a class, not by value. ClientCompose.tla models multi_stream (connect phase, close, back-off, re-issue; completion no later than the response timeout after submission) and dgram_stream (TCP iff TC, the truncated answer is never delivered) over abstract stream connections; its macro-step graph is checked by TLC and replayed into the real multi_stream / dgram_stream over a mock connector. The redundant / load_balancer leg (upstream order and probe timer left open, burst limits exact) is model-checked and bound by validating recorded runs of the real balancers over scripted upstreams (0..3 upstreams, all result kinds, burst limits; a panicking request future is an observation no rule accepts). Not covered: multi-response (XFR) requests on the stream transport, response-time estimation / fairness of the balancers, two multi_stream requests whose back-offs end in the same tick (order is random in the code), how many octets a stalled write has taken (stalled and short writes themselves are covered: a second request arriving while the first is half written), more than 65535/2 outstanding requests, real sockets/TLS. demux_reply restarts the response timer for every message, also for unknown IDs: bounded in the model (MaxFrames); see report. Open finding D_stream_response_timeout_ignored: the configured response timeout is never in force for ordinary requests (19 s default is used).",
+    "note": "Trusted: TLC, the transcription in ClientStream.tla/ClientDgram.tla, the harness (in-memory sockets, interposed CLOCK_MONOTONIC so that std::time::Instant follows the paused tokio clock). Errors are compared as a class, not by value. ClientCompose.tla models multi_stream (connect phase, close, back-off, re-issue; completion no later than the response timeout after submission) and dgram_stream (TCP iff TC, the truncated answer is never delivered) over abstract stream connections; its macro-step graph is checked by TLC and replayed into the real multi_stream / dgram_stream over a mock connector. The redundant / load_balancer leg (upstream order and probe timer left open, burst limits exact) is model-checked and bound by validating recorded runs of the real balancers over scripted upstreams (0..3 upstreams, all result kinds, burst limits; a panicking request future is an observation no rule accepts). Zone transfers on the stream transport (SubmitMulti, check_stream transcribed, re-insert at the same ID) are modelled and bound (replay and recorded traces). The peer's question is a triple (name, type, class) varied one component at a time, plus letter case and QDCOUNT 0/2. Not covered: response-time estimation / fairness of the balancers, two multi_stream requests whose back-offs end in the same tick (order is random in the code), how many octets a stalled write has taken (stalled and short writes themselves are covered: a second request arriving while the first is half written), more than 65535/2 outstanding requests, real sockets/TLS. demux_reply restarts the response timer for every message, also for unknown IDs: bounded in the model (MaxFrames); see report. Open finding D_stream_response_timeout_ignored: the configured response timeout is never in force for ordinary requests (19 s default is used).",
     "technique": "TLA+ specs (ClientStream.tla, ClientDgram.tla) + TLC exhaustive (safety, liveness); spec->impl behaviour replay on a virtual clock; impl->spec trace validation",
     "design_ref": "DESIGN.md §4 C15",
 }
@@ -50,6 +50,14 @@ def _stream_model(ctx, thorough):
     ends = ctx.tlc("MC_ClientStream", "MC_ClientStream_ends", workers=4, label="mc-stream-ends")
     ctx.require_ok(ends, "MC_ClientStream (ends)")
     ctx.require_actions(ends, STREAM_END_ACTIONS)
+    # zone transfers (multi-response requests, check_stream) mixed with
+    # single requests, idle timeout 0
+    xfr = ctx.tlc("MC_ClientStream", "MC_ClientStream_xfr_thorough" if thorough else "MC_ClientStream_xfr",
+                  workers=8, label="mc-stream-xfr", timeout=3000, coverage=False)
+    ctx.require_ok(xfr, "MC_ClientStream (xfr)")
+    xf = ctx.tlc("MC_ClientStream", "MC_ClientStream_xfrfine", workers=4, label="mc-stream-xfrfine")
+    ctx.require_ok(xf, "MC_ClientStream (xfr, fine)")
+    ctx.require_actions(xf, ["SubmitMulti", "Demux"])
     live = ctx.tlc("MC_ClientStream", "MC_ClientStream_live", workers=4, label="mc-stream-live",
                    coverage=False)
     ctx.require_ok(live, "MC_ClientStream (liveness: Completion)")
@@ -88,6 +96,16 @@ def _replay(ctx, thorough):
     rc, out, err, _ = ctx.run_bin("replay_client", ["--selftest-perturb"], stdin_path=head)
     ctx.selftest("perturbed expectation is reported by replay_client", "FAIL " in out)
     ctx.replay_cases("replay_client", cases, label="stream")
+    # zone transfers: mixed single / multi-response requests
+    xcases = os.path.join(ctx.work, "stream-xfr-cases.ndjson")
+    xgen = ctx.tlc("Gen_ClientStream",
+                   "Gen_ClientStream_xfr_thorough" if thorough else "Gen_ClientStream_xfr",
+                   workers=1, label="gen-stream-xfr", coverage=False, cases_to=xcases, count=False,
+                   timeout=3000)
+    ctx.require_ok(xgen, "Gen_ClientStream (xfr)")
+    if xgen.ncases < 5000:
+        raise vlib.ToolError("xfr generator produced too few cases: %d" % xgen.ncases)
+    ctx.replay_cases("replay_client", xcases, label="stream-xfr")
     if thorough:
         sim = os.path.join(ctx.work, "stream-sim.ndjson")
         g2 = ctx.tlc("Gen_ClientStream", "Gen_ClientStream_sim", workers=1, simulate=1500,
@@ -250,4 +268,5 @@ def run(ctx):
     ctx.assume("dgram: successive attempts draw different random IDs (a case in which they collide is re-run)")
     ctx.assume("multi_stream back-off (random, below 2^n s, at most 60 s) is shorter than one tick (100 s for multi_stream cases; 10 s and at most three failures for dgram_stream cases), so a Delay ends with the next tick")
     ctx.assume("balancers: every upstream that is asked hands back one result (assume/guarantee); which usable upstream is tried next and after how many ticks the probe timer fires is left open")
-    ctx.assume("single-response requests only; no caller drops its request future before it resolves")
+    ctx.assume("no caller drops its request future before it resolves")
+    ctx.assume("zone transfers: later messages of a transfer are matched by ID only (check_stream checks neither QR nor the question after the first SOA); the spec states the same")
